@@ -127,7 +127,7 @@ class C03(Prop):
             secs["well"].insert(g.randint(0, len(secs["well"])), ["NULL", "", g.choice([-999.2500001234, -9999, "none"]), g.choice(["", "x", "second null"])])
         other = g.choice(OTHERS)
         codec = g.choice(["utf-8", "utf-8", "utf-16", "cp1252", "latin-1", "utf-8-sig"])
-        cfg = draw_read_channel(g, ascii_only=False, encodable=[codec])
+        cfg = draw_read_channel(g, ascii_only=False, encodable=[codec], used_object_p=0.06)
         if cfg["channel"] in ("path", "Path", "stream"):
             cfg["explicit"] = True
         return {"secs": secs, "other": other, "version": g.choice([1.2, 2.0]), "case": g.choice(["preserve", "upper", "lower"]),
